@@ -67,7 +67,25 @@ PairwiseBigExplains(cfg, c, r) ==
               /\ ValidShape(w, x, y, TRUE)
               /\ r.score >= Rescore(w, x, y, sc, FALSE)
 
+\* runs whose configuration carries heavy = 1: scores of the order of MIN_SCORE / 2 (legal, not
+\* "forbidden"), tiny inputs, custom mode: judged by the heavy layer of Alignment.tla (the documented
+\* model by enumeration in clamped arithmetic). Demanded only where that layer is exact and the code's
+\* sentinel is out of reach: optimum above HEAVY_TRUST.
+PairwiseHeavyExplains(cfg, c, r) ==
+    LET sc  == Scheme(cfg)
+        opt == BestBruteH(c.a.x, c.a.y, sc)
+    IN  \/ opt <= HEAVY_TRUST
+        \* a sum of penalties that leaves the 32-bit score type: outside the domain of any i32 aligner
+        \* (this class runs only in the build with overflow checks, where that boundary is a panic)
+        \/ /\ r.st = "panic" /\ "msg" \in DOMAIN r /\ r.msg = "attempt to add with overflow"
+        \/ /\ c.op = "custom"
+           /\ IsAlignment(r)
+           /\ r.mode = ModeCode("custom")
+           /\ ValidAlignmentH(r, c.a.x, c.a.y, sc)
+           /\ r.score = opt
+
 PairwiseExplains(cfg, c, r) ==
+    IF "heavy" \in DOMAIN cfg THEN PairwiseHeavyExplains(cfg, c, r) ELSE
     /\ c.op \in {"custom", "global", "semiglobal", "local"}
     /\ IsAlignment(r)
     /\ IF "wit" \in DOMAIN c.a THEN PairwiseBigExplains(cfg, c, r) ELSE
